@@ -98,6 +98,7 @@ type RunOpts struct {
 	Upd     string `json:"update_snaps"`
 	UpdSet  bool   `json:"update_snaps_set"`
 	GoFlags string `json:"goflags"` // GOFLAGS in the environment of the test process (as under `go test`)
+	Shuffle string `json:"shuffle,omitempty"` // -test.shuffle (on | a seed)
 }
 
 var scnRoot = os.Getenv("VERIF_BB_SCN") // the scratch copy of the scenario module of this shard
@@ -133,6 +134,9 @@ func runProgram(o RunOpts, s Scenario) (Result, string, error) {
 	}
 	if o.Cpu != "" {
 		args = append(args, "-test.cpu", o.Cpu)
+	}
+	if o.Shuffle != "" {
+		args = append(args, "-test.shuffle", o.Shuffle)
 	}
 	cmd := exec.Command(binPath(o.Pkg, o.Trim), args...)
 	cmd.Dir = o.Cwd
